@@ -74,7 +74,7 @@ def build_dexes(prog, split):
                 dm.append(dict(name=mname, ret=ret, params=params, flags=9, code=dict(regs=2 + len(params) * 2, ins=sum(2 if p in "JD" else 1 for p in params), outs=2, insns=body)))
             # (the kind of class does not matter to cross-references: interfaces carry code too -- <clinit>, static and default methods)
             classes.append(dict(name=c["name"], super=OBJ, flags=c.get("flags", 1), sfields=[(fn, ft, 9) for (fn, ft) in c["fields"]], ifields=[], dmethods=dm, vmethods=[]))
-        out.append(Dex(classes).build())
+        out.append(Dex(classes, extra_fields=prog.get("extra_fields", ())).build())
     return out
 
 
